@@ -639,3 +639,185 @@ Definition cTl (pc : cpc) : bool :=
 Definition holdsW (s : state) (i : nat) : bool := wl_is s (PCli i).
 Definition holdsC (s : state) (i : nat) : bool := cl_is s (PCli i).
 Definition holdsT (s : state) (i : nat) : bool := onat_eqb (tl s) (Some i).
+
+(* ---------------------------------------------------------------- trace acceptor (correspondence K)
+
+   The implementation reports, through the verifEvent points of leveldb/verif_events_locks.go, the events
+   (thread, kind, site): write lock acquired / released / handed over, compCommitLk locked / unlocked, call
+   begin / end, closeC closed, closeW.Wait returned.  [accepts] replays such a trace on
+     (1) the clients' control-flow graphs [cedges fixed]: the events of one goroutine must spell a path of the
+         graph; labels the hooks do not report are skipped (their guards -- channel partners, storage outcomes,
+         flags -- are not checked: this is the OPEN-SYSTEM reading of the graphs);
+     (2) the lock discipline of [lsem]: the write lock is taken only when free, released only by its holder
+         (or on behalf of the Transaction / by compactionError after a hand-over), handed over in pairs;
+         compCommitLk alternates lock / unlock by the same goroutine. *)
+
+Scheme Equality for bg.
+Scheme Equality for ctx.
+Scheme Equality for r3.
+Scheme Equality for errk.
+Scheme Equality for rsite.
+Scheme Equality for tsite.
+Scheme Equality for cpc.
+
+(* the event (kind, site) a label is reported as; top = the innermost call of the goroutine *)
+Definition obs (l : lbl) (top : nat) : option (nat * nat) :=
+  match l with
+  | LBegin c => Some (220, c)
+  | LEnd => Some (221, top)
+  | LAcqW | LAcqWRO | LAcqWClose => Some (200, top)
+  | LRelW => Some (201, top)
+  | LRelWU => Some (201, 10)
+  | LGiveW => Some (202, 10)
+  | LWToTr => Some (204, 3)
+  | LSendErrSetRO => Some (205, 7)
+  | LRelWTr => Some (201, 11)
+  | LLockC => Some (210, 4)
+  | LUnlockC => Some (211, 4)
+  | LCloseChan => Some (230, 8)
+  | LWaitBg => Some (231, 8)
+  | _ => None
+  end.
+
+(* moves a client makes as the passive partner of a rendezvous: (Some kind = reported as that event) *)
+Definition passive (pc : cpc) : list (option nat * cpc) :=
+  match pc with
+  | W1 true => [ (None, W2) ]
+  | W2 => [ (None, W3); (Some 203, WF true) ]
+  | W3 => [ (None, Ret) ]
+  | TrigW _ s => [ (None, on_ok s); (None, on_err s) ]
+  | _ => []
+  end.
+
+Definition mem_cpc (pc : cpc) (l : list cpc) : bool := existsb (cpc_beq pc) l.
+Definition add_cpc (pc : cpc) (l : list cpc) : list cpc := if mem_cpc pc l then l else pc :: l.
+
+Definition silent_succ (pc : cpc) : list cpc :=
+  fold_right (fun e acc => match obs (fst e) 0 with None => snd e :: acc | Some _ => acc end) [] (cedges fixed pc)
+  ++ fold_right (fun e acc => match fst e with None => snd e :: acc | Some _ => acc end) [] (passive pc).
+
+(* closure under unreported steps: work-list with fuel *)
+Fixpoint clos (fuel : nat) (todo seen : list cpc) : list cpc :=
+  match fuel with
+  | O => seen
+  | S f =>
+      match todo with
+      | [] => seen
+      | pc :: rest =>
+          let new := filter (fun q => negb (mem_cpc q seen) && negb (mem_cpc q rest)) (silent_succ pc) in
+          let new := fold_right add_cpc [] new in
+          clos f (new ++ rest) (new ++ seen)
+      end
+  end.
+Definition closure (l : list cpc) : list cpc := clos 1000 l l.
+
+Definition pair_eqb (a b : nat * nat) : bool := Nat.eqb (fst a) (fst b) && Nat.eqb (snd a) (snd b).
+
+(* all program counters reachable by unreported steps followed by the step reported as (k, a) *)
+Definition fire (pcs : list cpc) (k a top : nat) : list cpc :=
+  fold_right (fun pc acc =>
+    let own := fold_right (fun e acc' =>
+                 match obs (fst e) top with
+                 | Some ev => if pair_eqb ev (k, a) then add_cpc (snd e) acc' else acc'
+                 | None => acc'
+                 end) acc (cedges fixed pc) in
+    fold_right (fun e acc' =>
+                 match fst e with
+                 | Some k' => if Nat.eqb k' k then add_cpc (snd e) acc' else acc'
+                 | None => acc'
+                 end) own (passive pc))
+    [] (closure pcs).
+
+Inductive kwlock := KFree | KThread (t : nat) | KGiving | KTr | KCE | KClosed.
+Inductive kthread := KClient (pcs : list cpc) (stack : list nat) | KBg | KCErr.
+
+Record kstate := { kwl : kwlock; kcl : option nat; kths : list (nat * kthread) }.
+Definition kinit : kstate := {| kwl := KFree; kcl := None; kths := [] |}.
+
+Fixpoint kget (t : nat) (l : list (nat * kthread)) : option kthread :=
+  match l with [] => None | (t', x) :: l' => if Nat.eqb t t' then Some x else kget t l' end.
+Fixpoint kset (t : nat) (x : kthread) (l : list (nat * kthread)) : list (nat * kthread) :=
+  match l with
+  | [] => [ (t, x) ]
+  | (t', y) :: l' => if Nat.eqb t t' then (t, x) :: l' else (t', y) :: kset t x l'
+  end.
+
+(* the lock monitor *)
+Definition kw_step (w : kwlock) (t k a : nat) : option kwlock :=
+  match k with
+  | 200 => match w with
+           | KFree => Some (match a with 8 => KClosed | 9 => KCE | _ => KThread t end)
+           | _ => None end
+  | 201 => match a, w with
+           | 11, KTr => Some KFree
+           | 9, KCE => Some KFree
+           | 11, _ | 9, _ => None
+           | _, KThread t' => if Nat.eqb t t' then Some KFree else None
+           | _, _ => None
+           end
+  | 202 => match w with KThread t' => if Nat.eqb t t' then Some KGiving else None | _ => None end
+  | 203 => match w with KGiving => Some (KThread t) | _ => None end
+  | 204 => match w with KThread t' => if Nat.eqb t t' then Some KTr else None | _ => None end
+  | 205 => match w with KThread t' => if Nat.eqb t t' then Some KCE else None | _ => None end
+  | _ => Some w
+  end.
+Definition kc_step (c : option nat) (t k : nat) : option (option nat) :=
+  match k with
+  | 210 => match c with None => Some (Some t) | Some _ => None end
+  | 211 => match c with Some t' => if Nat.eqb t t' then Some None else None | None => None end
+  | _ => Some c
+  end.
+
+Definition is_bg_site (a : nat) : bool := Nat.eqb a 12.
+Definition is_ce_site (a : nat) : bool := Nat.eqb a 9.
+
+(* one event of thread t *)
+Definition kth_step (th : option kthread) (k a : nat) : option kthread :=
+  match th with
+  | None =>
+      if is_bg_site a then Some KBg else if is_ce_site a then Some KCErr
+      else match k with
+           | 220 => match fire [Idle] 220 a 0 with [] => None | pcs => Some (KClient pcs [a]) end
+           | _ => None
+           end
+  | Some KBg => if is_bg_site a then Some KBg else None
+  | Some KCErr => if is_ce_site a then Some KCErr else None
+  | Some (KClient pcs st) =>
+      match k with
+      | 220 => match fire pcs 220 a (hd 0 st) with [] => None | pcs' => Some (KClient pcs' (a :: st)) end
+      | 221 => match st with
+               | top :: st' => if Nat.eqb top a
+                               then match fire pcs 221 a top with [] => None | pcs' => Some (KClient pcs' st') end
+                               else None
+               | [] => None
+               end
+      | _ => match fire pcs k a (hd 0 st) with [] => None | pcs' => Some (KClient pcs' st) end
+      end
+  end.
+
+Definition kstep (s : kstate) (e : nat * nat * nat) : option kstate :=
+  let '(t, k, a) := e in
+  match kw_step (kwl s) t k a, kc_step (kcl s) t k, kth_step (kget t (kths s)) k a with
+  | Some w, Some c, Some th => Some {| kwl := w; kcl := c; kths := kset t th (kths s) |}
+  | _, _, _ => None
+  end.
+
+(* index of the first rejected event (None = the whole trace is accepted) *)
+Fixpoint krun (s : kstate) (i : nat) (tr : list (nat * nat * nat)) : option nat * kstate :=
+  match tr with
+  | [] => (None, s)
+  | e :: tr' => match kstep s e with Some s' => krun s' (S i) tr' | None => (Some i, s) end
+  end.
+
+(* at the end of a complete run (every call returned, Close returned) nothing is held by a client *)
+Definition kfinal_ok (s : kstate) : bool :=
+  match kwl s with KClosed => true | _ => false end && is_none (kcl s) &&
+  forallb (fun x => match snd x with
+                    | KClient pcs st => is_nil st && (mem_cpc Idle pcs || mem_cpc IdleTr pcs)
+                    | _ => true end) (kths s).
+
+Definition accepts (complete : bool) (tr : list (nat * nat * nat)) : bool :=
+  match krun kinit 0 tr with
+  | (None, s) => if complete then kfinal_ok s else true
+  | (Some _, _) => false
+  end.
